@@ -5,6 +5,7 @@ import NixModel.Lemmas.C05Accept
 import NixModel.Lemmas.C05Stale
 import NixModel.Lemmas.C05Hist
 import NixModel.Lemmas.C05Copy
+import NixModel.Lemmas.C05Kind
 
 /-!
 # C05 — links are aliases of the original entity, never copies, and stay in their block
@@ -966,6 +967,65 @@ theorem entities_inside_a_copy_refused (g g' : Graph) (hf : Nix.Store.C20.FileOk
       · exact absurd h1.2 (by simp)
       · exact absurd h1.2.1 (by simp)
 
+/-! ## what the membership tests walk: entries of the block's own groups, nothing reachable through other links -/
+
+/-- source lists (`DataArray` / `Tag` / `MultiTag` / `Group` `.sources`): whatever `append` accepts is reached from the
+list's block by `sources` groups only (block -sources-> entry -sources-> entry …, the walk of `Block.find_sources`).
+No `metadata`, `link`, `properties`, `references`, `features` or dimension link is followed. -/
+theorem source_list_takes_only_the_source_walk (g g' : Graph) (c : Cont) (k : Nat)
+    (hf : c.info.flavour = .sourceLink) (h : contAppend g c (.ent k) = .ok g') :
+    ∃ b, c.block = some b ∧ SourceOf g b k := contAppend_source_ok hf h
+
+/-- member lists and references: whatever `append` accepts is an entry of the block's own container group of the
+list's kind (`data_arrays`, `tags`, `multi_tags`, `data_frames`) and has the kind the list holds -/
+theorem member_list_takes_only_store_entries (g g' : Graph) (c : Cont) (k : Nat)
+    (hf : c.info.flavour = .link) (h : contAppend g c (.ent k) = .ok g') :
+    ∃ b, c.block = some b ∧ EntryOf g c.info.store b k ∧ kindOf g k = c.info.item := contAppend_link_ok hf h
+
+/-- an object that is no entry of any `sources` group - a Section that is the metadata of a source of the block (or
+lies below / is linked from such a section), a Property, an array, a tag: whatever else is *reachable* below the
+block's sources in the file - is refused by every source list of every block, by `append` … -/
+theorem not_a_sources_entry_refused (g : Graph) (k : Nat) (hk : ∀ p, ¬ EntryOf g "sources" p k) (c : Cont)
+    (hf : c.info.flavour = .sourceLink) : ∃ e, contAppend g c (.ent k) = .error e := by
+  cases h : contAppend g c (.ent k) with
+  | error e => exact ⟨e, rfl⟩
+  | ok g' =>
+    obtain ⟨b, _, hs⟩ := contAppend_source_ok hf h
+    obtain ⟨p, hp⟩ := sourceOf_entry hs
+    exact absurd hp (hk p)
+
+/-- … and by `extend` as soon as it is among the items (no item is linked then) -/
+theorem not_a_sources_entry_refused_by_extend (g : Graph) (k : Nat) (hk : ∀ p, ¬ EntryOf g "sources" p k) (c : Cont)
+    (hf : c.info.flavour = .sourceLink) (keys : List Key) (hmem : Key.ent k ∈ keys) :
+    ∃ e, contExtend g c keys = .error e := by
+  have hfl : c.info.flavour = .link ∨ c.info.flavour = .sourceLink := Or.inr hf
+  cases h : contExtend g c keys with
+  | error e => exact ⟨e, rfl⟩
+  | ok g' =>
+    exfalso
+    obtain ⟨k', hk'⟩ := (contExtend_ok_iff g c keys hfl).mp ⟨g', h⟩ _ hmem
+    obtain ⟨e, he⟩ := not_a_sources_entry_refused g k hk c hf
+    have h1 : contExtend g c [.ent k] = contAppend g c (.ent k) := contExtend_single g c _ hfl
+    have h2 : ∃ g1, contExtend g c [.ent k] = .ok g1 :=
+      (contExtend_ok_iff g c [.ent k] hfl).mpr (by intro key hkey; simp at hkey; subst hkey; exact ⟨k', hk'⟩)
+    obtain ⟨g1, hg1⟩ := h2
+    rw [h1, he] at hg1
+    cases hg1
+
+/-- an entity of another kind than the list holds, or one that is no entry of the block's container of that kind
+(whatever else it is linked from: a tag's references, a feature, positions, a dimension link), is refused by
+member lists and references -/
+theorem not_a_store_entry_refused (g : Graph) (k : Nat) (c : Cont) (hf : c.info.flavour = .link)
+    (hk : kindOf g k ≠ c.info.item ∨ ∀ b, c.block = some b → ¬ EntryOf g c.info.store b k) :
+    ∃ e, contAppend g c (.ent k) = .error e := by
+  cases h : contAppend g c (.ent k) with
+  | error e => exact ⟨e, rfl⟩
+  | ok g' =>
+    obtain ⟨b, hb, he, hkind⟩ := contAppend_link_ok hf h
+    rcases hk with hk | hk
+    · exact absurd hkind hk
+    · exact absurd he (hk b hb)
+
 /-- The reachable-state form: in every state reached by dimension and structural operations no
 range dimension has both ticks and a link.  `ticks_link_exclusive_invariant` proves the step for
 the operations that write ticks, links and data; lifting it to all histories additionally needs
@@ -1040,6 +1100,26 @@ example : ((demoKey "y").bind fun k => (demoList (demo.g.deleteObjs [k])).map fu
 example : ((demoKey "y").bind fun k => (demoKey "x").bind fun x => (demoList (demo.g.deleteObjs [k])).map fun c =>
     (okOf (contExtend (demo.g.deleteObjs [k]) c [.ent x, .ent k]), okOf (contExtend (demo.g.deleteObjs [k]) c [.ent x]),
      okOf (contExtend demo.g c [.ent x, .ent k]))) = some (false, true, true) := by decide +kernel
+
+/-! a Section that is the metadata of a source of block `b1`: in the file it hangs below the block's `sources` group
+(`…/sources/s/metadata`), yet the source list of group `g` refuses it and accepts the source itself -/
+
+def demoKind : Graph := [
+  Op.createIn [.name "data", .name "b1"] "source" "s" "t" none,
+  .createSection [] "sec" "t",
+  .setRole [.name "data", .name "b1", .name "sources", .name "s"] "metadata" (some [.name "metadata", .name "sec"])].foldl step demo.g
+
+def demoSrcList : Option Cont := openCont demoKind [.name "data", .name "b1", .name "groups", .name "g"] "sources"
+
+def demoSecKey : Option Nat := (resolve demoKind rootLoc [.name "metadata", .name "sec"]).map (·.key)
+
+example : demoSecKey.isSome = true ∧
+    (resolve demoKind rootLoc [.name "data", .name "b1", .name "sources", .name "s", .name "metadata"]).map (·.key) = demoSecKey := by
+  decide +kernel
+example : (demoSecKey.bind fun k => demoSrcList.map fun c => (c.info.flavour == .sourceLink, okOf (contAppend demoKind c (.ent k)))) =
+    some (true, false) := by decide +kernel
+example : (((resolve demoKind rootLoc [.name "data", .name "b1", .name "sources", .name "s"]).map (·.key)).bind fun k =>
+    demoSrcList.map fun c => okOf (contAppend demoKind c (.ent k))) = some true := by decide +kernel
 
 /-! the history form: `y` is deleted, another `y` is created, handles are offered.  The handle taken from the block
 (parent = the block's `data_arrays` group, name "y") follows its name: it stands for the new array and is accepted; a
